@@ -54,6 +54,14 @@ CLAIMS = {
          "Decides: cancel-then-delete of the entry named by Oldtag dominates construction and the single send of Rflush (flush request's tag); unknown oldtag answered with Rerror(unknown tag); a completion is forwarded only when its tag is in the table AND the entry belongs to the request that produced it (identity bound at goroutine start, not the tag), so a flushed request's late reply can neither be sent nor consume a reused tag's entry.",
          "Not decided: timing statements, handlers ignoring cancellation (their late completion is dropped by the decided identity test).",
          "§4 C07"),
+ "C01": ("table check of declarations against a transcribed 9P2000 message table (types/AST), codec-grammar extraction: per-type event sequences of the three sibling type switches (encode/decode/size9p) over SSA compared with the manual's layouts, exhaustiveness over all field types",
+         "Decides: type codes = 9P2000 codes, R=T+1; newMessage maps each of the 27 codes to the struct whose Type() returns it; every message struct, Qid, Dir has exactly the manual's fields in order with the manual's widths (names checked, so same-width swaps are seen); fields9p walks fields in ascending order; every field type has a clause in encode/decode/size9p; each clause's I/O sequence equals the manual's layout for that type (little-endian, 2-byte string/list counts, 4-byte data count, qid order, doubled stat size for Rstat/Twstat) and the three functions agree type by type (Size==len(Marshal), decode mirrors encode).",
+         "Not decided: value equality after a round trip (nil vs empty, sub-second time, >65535-byte strings are excluded by the property). Trusted: encoding/binary, reflect, the transcribed table.",
+         "§4 C01, §3 E1/E1b"),
+ "C09": ("SSA dataflow composition (msgflow): client parameter -> T-field route composed with dispatcher T-field -> Session argument route must be the identity, same for results through the R-message; allowed-conversion table; dispatch-table exhaustiveness",
+         "Decides for all 11 Session methods: each parameter reaches exactly one T-message field on the client (identity or a documented conversion) and the dispatcher passes that same field as the same-position argument; each result of Session.M reaches one R-message field and the client returns that field at the same position; all T fields are set; the reply is consumed by a checked assertion to the R-type with code T+1; transport errors are returned; dispatch table exhaustive; Tread buffer sized from Count with the msize clamp (bounds).",
+         "Not decided: value transport through the codec (C01), clipping values, whole-second timestamps, completion of all concurrent calls (flow-control coupling is a timing property).",
+         "§4 C09, §3 E2/E12"),
 }
 
 REASON_PENDING = "static check not built yet in this round (planned per DESIGN.md §4); not claimed until its rules are in place"
